@@ -273,6 +273,77 @@ mut("try_join_tuple_polls_after_ready", ["C03"],
     [("src/future/try_join/tuple.rs", "                    if !readiness.clear_ready(index) || this.state[index].is_ready() {", "                    if !readiness.clear_ready(index) {")],
     "tuple try_join drops the 'already completed' guard: a stale wake-up re-polls a finished child (whose storage was already dropped)")
 
+# ---- groups (C11, C12)
+mut("future_group_remove_keeps_slab_entry", ["C11"],
+    [("src/future/future_group.rs", """            self.states[key.0].set_none();
+            self.futures.remove(key.0);
+        }
+        is_present""", """            self.states[key.0].set_none();
+        }
+        is_present""")],
+    "FutureGroup::remove forgets the slab entry: the member is not dropped and len() stays")
+
+mut("future_group_yielded_key_stays", ["C11"],
+    [("src/future/future_group.rs", """        if let Poll::Ready(Some((key, _))) = ret {
+            this.keys.remove(&key.0);
+        }
+""", "")],
+    "the key of a yielded member stays in the key set: contains_key keeps answering true")
+
+mut("future_group_insert_does_not_arm", ["C11", "C20"],
+    [("src/future/future_group.rs", """        self.states[index].set_pending();
+        self.wakers.readiness().set_ready(index);
+
+        Key(index)""", """        self.states[index].set_pending();
+
+        Key(index)""")],
+    "insert does not arm the slot: a member inserted into a re-used slot whose bit is clear is never polled")
+
+mut("future_group_empty_check_removed", ["C11"],
+    [("src/future/future_group.rs", """        if this.futures.is_empty() {
+            return Poll::Ready(None);
+        }
+""", "")],
+    "an empty FutureGroup answers Pending instead of None")
+
+mut("stream_group_none_when_any_ended", ["C12"],
+    [("src/stream/stream_group.rs", "        if done_count == stream_count {", "        if done_count > 0 && ret.is_pending() {")],
+    "StreamGroup returns None as soon as some member ended in a poll that yielded nothing, although others remain")
+
+mut("stream_group_keyed_wrong_key", ["C12"],
+    [("src/stream/stream_group.rs", "                        ret = Poll::Ready(Some((Key(index), item)));", "                        ret = Poll::Ready(Some((Key(index + done_count), item)));")],
+    "keyed StreamGroup tags an item with a shifted key when another member ended earlier in the same poll")
+
+mut("stream_group_removal_queue_not_drained", ["C12"],
+    [("src/stream/stream_group.rs", """            for key in this.key_removal_queue.iter() {
+                this.keys.remove(key);
+            }
+            this.key_removal_queue.clear();""", """            for key in this.key_removal_queue.iter().skip(1) {
+                this.keys.remove(key);
+            }
+            this.key_removal_queue.clear();""")],
+    "the first member that ended in a poll keeps its key: contains_key stays true")
+
+mut("stream_group_remove_keeps_state", ["C12"],
+    [("src/stream/stream_group.rs", """        let is_present = self.keys.remove(&key.0);
+        if is_present {
+            self.states[key.0].set_none();
+            self.streams.remove(key.0);
+        }
+        is_present
+    }
+
+    /// Returns `true` if the `StreamGroup` contains a value for the specified key.""", """        let is_present = self.keys.contains(&key.0);
+        if is_present {
+            self.states[key.0].set_none();
+            self.streams.remove(key.0);
+        }
+        is_present
+    }
+
+    /// Returns `true` if the `StreamGroup` contains a value for the specified key.""")],
+    "StreamGroup::remove leaves the key in the key set (a later poll indexes a vacant slab slot)")
+
 
 def sh(cmd, **kw):
     return subprocess.run(cmd, stdout=subprocess.PIPE, stderr=subprocess.STDOUT, text=True, **kw)
